@@ -911,17 +911,17 @@ func renderPayload(c payCase) string {
 		case "null":
 			rels = append(rels, fmt.Sprintf(`%q:{"data":null}`, r.Name))
 		case "ident":
-			rels = append(rels, fmt.Sprintf(`%q:{"data":{"type":"ak2","id":%q}}`, r.Name, r.Listed[0]))
+			rels = append(rels, fmt.Sprintf(`%q:{"data":{"type":"ak2","id":%s}}`, r.Name, jsonQuote(r.Listed[0])))
 		case "identbadtype": // an identifier whose type is not the relationship's target type
-			rels = append(rels, fmt.Sprintf(`%q:{"data":{"type":"ak","id":%q}}`, r.Name, r.Listed[0]))
+			rels = append(rels, fmt.Sprintf(`%q:{"data":{"type":"ak","id":%s}}`, r.Name, jsonQuote(r.Listed[0])))
 		case "identnotype": // an identifier without type member
-			rels = append(rels, fmt.Sprintf(`%q:{"data":{"id":%q}}`, r.Name, r.Listed[0]))
+			rels = append(rels, fmt.Sprintf(`%q:{"data":{"id":%s}}`, r.Name, jsonQuote(r.Listed[0])))
 		case "badtypenoid": // another type, and no id
 			rels = append(rels, fmt.Sprintf(`%q:{"data":{"type":"ak"}}`, r.Name))
 		case "list":
 			var ids []string
 			for _, id := range r.Listed {
-				ids = append(ids, fmt.Sprintf(`{"type":"ak2","id":%q}`, id))
+				ids = append(ids, fmt.Sprintf(`{"type":"ak2","id":%s}`, jsonQuote(id)))
 			}
 			rels = append(rels, fmt.Sprintf(`%q:{"data":[%s]}`, r.Name, strings.Join(ids, ",")))
 		case "badlinks": // members of the wrong JSON kind beside the data
@@ -1079,6 +1079,13 @@ func sameMaybeNil(a, b any) bool {
 		b = rb.Elem().Interface()
 	}
 	return sameValue(a, b)
+}
+
+// jsonQuote: a text as a JSON string (Go's %q writes Go syntax, which differs for control characters)
+func jsonQuote(s string) string {
+	b, err := json.Marshal(s)
+	must(err)
+	return string(b)
 }
 
 func remarshalSame(c payCase, out []byte) bool {
@@ -1248,6 +1255,36 @@ func codecOtherModes(mode string, rng *rand.Rand, stt *stats, w *evWriter, n int
 					emit("soft", entry, "edit", []byte(extra))
 				}
 			}
+			// names in the wrong place: a relationship called like an attribute of the type (with one
+			// identifier, with a list), an attribute called like a relationship
+			for _, extra := range []string{
+				`{"type":"ak","id":"x","relationships":{"kstring":{"data":{"type":"ak2","id":"u"}}}}`,
+				`{"type":"ak","id":"x","relationships":{"kint8":{"data":[{"type":"ak2","id":"u"},{"type":"ak2","id":"v"}]}}}`,
+				`{"type":"ak","id":"x","relationships":{"kbytes":{"data":null}}}`,
+				`{"type":"ak","id":"x","attributes":{"o":"u"}}`,
+				`{"type":"ak","id":"x","attributes":{"m":["u"]}}`,
+			} {
+				for _, impl := range []string{"soft", "wrap"} {
+					for _, entry := range feedEntries {
+						emit(impl, entry, "misplaced", []byte(extra))
+					}
+				}
+			}
+			// inclusions that repeat: the same resource twice, the same pair with other content, entries
+			// without identity
+			for _, extra := range []string{
+				`{"data":{"type":"ak","id":"x"},"included":[{"type":"ak2","id":"u"},{"type":"ak2","id":"u"}]}`,
+				`{"data":{"type":"ak","id":"x"},"included":[{"type":"ak2","id":"u","attributes":{"s":"a"}},{"type":"ak3","id":"k"},{"type":"ak2","id":"u","attributes":{"s":"b"}}]}`,
+				`{"data":[{"type":"ak","id":"x"}],"included":[{},{}]}`,
+				`{"data":{"type":"ak","id":"x"},"included":[null,null]}`,
+				`{"data":{"type":"ak","id":"x"},"included":[{"type":"ak","id":"x"},{"type":"ak","id":"x"}]}`,
+			} {
+				for _, impl := range []string{"soft", "wrap"} {
+					for _, entry := range feedEntries {
+						emit(impl, entry, "repeated-inclusion", []byte(extra))
+					}
+				}
+			}
 			// every strict prefix (thinned for long payloads)
 			step := 1 + len(valid)/120
 			for i := 0; i < len(valid); i += step {
@@ -1413,7 +1450,8 @@ func codecOtherModes(mode string, rng *rand.Rand, stt *stats, w *evWriter, n int
 				so, sm = shapes[i%7], shapes[i/7]
 			}
 			// (the empty id is an id like any other inside a list: it is listed, so it is held)
-			listed := [][]string{{"u"}, {"v", "u"}, {"u", "u", "w"}, {}, {"", "u", ""}, {""}}[rng.Intn(6)]
+			// (... and so are ids with characters JSON must escape: a control character, DEL, a quote, a backslash)
+			listed := [][]string{{"u"}, {"v", "u"}, {"u", "u", "w"}, {}, {"", "u", ""}, {""}, {"c\x01l", "u"}, {"d\x7fl", "b\a", "q\"r\\s", "t\tb"}}[rng.Intn(8)]
 			ro := relShape{Name: "o", To1: true, Shape: so, Listed: []string{}}
 			rm := relShape{Name: "m", To1: false, Shape: sm, Listed: []string{}}
 			if so == "ident" || so == "identbadtype" {
@@ -1771,7 +1809,7 @@ type ptEvent struct {
 
 var ptypeScenarios = []string{"norels:plain", "norels:emptyrels", "norels:unknownrel-ident", "norels:unknownrel-nodata",
 	"norels:unknownattr", "spare:first", "spare:removed", "spare:back-new-field", "spare:back-old-field",
-	"spare:back-rel", "spare:back-old-rel", "dup:both", "dup:attr-only", "dup:rel-only"}
+	"spare:back-rel", "spare:back-old-rel", "dup:both", "dup:attr-only", "dup:rel-only", "dupint:both", "dupint:attr-only"}
 
 func runPType(c ptCase) ptEvent {
 	ev := ptEvent{Ev: "ptype", Impl: c.Impl, Scenario: c.Scenario, TypeKnown: true, WantAttrs: []string{}, WantRels: []string{},
@@ -1819,22 +1857,30 @@ func runPType(c ptCase) ptEvent {
 	case "norels:unknownattr":
 		ev.TName, ev.WantAttrs, ev.UnknownAttr = "ak3", []string{"t", "zz"}, true
 		payload = `{"type":"ak3","id":"n1","attributes":{"t":"v","zz":1}}`
-	case "dup:both", "dup:attr-only", "dup:rel-only":
+	case "dup:both", "dup:attr-only", "dup:rel-only", "dupint:both", "dupint:attr-only":
 		// a soft type in which an attribute and a relationship carry the same name (Schema.AddAttr and
 		// AddRel build it): what a payload names is reported, kind by kind
 		ev.TName = "t11"
 		must(s.AddType(jsonapi.Type{Name: "t11"}))
-		must(s.AddAttr("t11", jsonapi.Attr{Name: "dup", Type: jsonapi.AttrTypeString}))
+		dupKind := jsonapi.AttrTypeString
+		if strings.HasPrefix(c.Scenario, "dupint:") {
+			dupKind = jsonapi.AttrTypeInt // (a name looked up among the attributes first finds a number here, not an id)
+		}
+		must(s.AddAttr("t11", jsonapi.Attr{Name: "dup", Type: dupKind}))
 		must(s.AddAttr("t11", jsonapi.Attr{Name: "k", Type: jsonapi.AttrTypeString}))
 		if err := s.AddRel("t11", jsonapi.Rel{FromType: "t11", FromName: "dup", ToOne: true, ToType: "ak3"}); err != nil {
 			infra("the library refuses a relationship named like an attribute: the scenario has no object")
 		}
 		attrs, rels := `"attributes":{"dup":"x","k":"kv"}`, `"relationships":{"dup":{"data":{"type":"ak3","id":"r"}}}`
+		if dupKind == jsonapi.AttrTypeInt {
+			attrs = `"attributes":{"dup":7,"k":"kv"}`
+			wantVals["dup"] = 7
+		}
 		switch c.Scenario {
-		case "dup:both":
+		case "dup:both", "dupint:both":
 			ev.WantAttrs, ev.WantRels = []string{"dup", "k"}, []string{"dup"}
 			payload = `{"type":"t11","id":"h1",` + attrs + `,` + rels + `}`
-		case "dup:attr-only":
+		case "dup:attr-only", "dupint:attr-only":
 			ev.WantAttrs = []string{"dup", "k"}
 			payload = `{"type":"t11","id":"h1",` + attrs + `}`
 		default:
